@@ -454,4 +454,11 @@ def r11_server(ctx):
         o.rule = 'R11.6' if o.rule == 'R18.4' else o.rule
 
 
-RULES = [('R11-server', r11_server), ('R11-close', r11_close), ('R11-send', r11_send), ('R11-receive', r11_receive), ('R11-multi', r11_multi)]
+def r11_socket(ctx):
+    """Socket ports: a non-blocking receive never waits (every read follows a positive readability poll), iteration ends
+    quietly at end of stream and the port reports closed (shared with C18 R18.1)."""
+    from . import c18
+    ctx.borrow(c18.r18_1, 'R11.7')
+
+
+RULES = [('R11-socket', r11_socket), ('R11-server', r11_server), ('R11-close', r11_close), ('R11-send', r11_send), ('R11-receive', r11_receive), ('R11-multi', r11_multi)]
